@@ -21,7 +21,9 @@ LEVEL_NOTE = "Trusts rustc MIR, the extractor, tokio::spawn panic isolation, tok
 EXPLANATION = ("Rules over the MIR of server::HttpAcceptor::accept, HttpsAcceptor::new_stream, the server task in HttpServerStarter::start, http_request_handle_wrap, Service::call and the "
                "From<hyper::Error>/From<http::Error> impls from the current tree: DOM/PASS (Err edges loop back; returns only under the Ok edge / the select! Disabled arm), forward flow "
                "(connection and negotiation futures reach only spawn / FuturesUnordered::push), TABLE (wrap's result arms -> Ok(response)), CENSUS (panic sites in two call-graph regions "
-               "vs tables/c18_panics.txt, keyed (region, function, kind, callee-or-assert-kind) with multiplicity; foreign-macro expansions bucketed per function).")
+               "vs tables/c18_panics.txt, keyed (region, source-level function item, kind, callee-or-assert-kind) with multiplicity -- closures, async blocks and inlined private helpers count "
+               "with the function they are written in; foreign-macro expansions bucketed per function; debug_assert! bodies and match arms of an enum variant the scrutinee provably cannot "
+               "hold at that point are not sites).")
 TRUSTED = ["rustc nightly MIR + const evaluation", "mirfacts extractor", "rules/engine.py + rules/lib_c16.py", "tables/c18_panics.txt (each line reviewed)", "tokio / hyper / async-stream semantics"]
 
 TABLE = os.path.join(VERIF, "tables", "c18_panics.txt")
@@ -199,9 +201,11 @@ def r3_errors_become_responses(ctx):
         if f is None:
             ctx.lost(R, "impl From<%s> for HttpError" % src)
             continue
-        rd = return_defs(f)
-        ok = bool(rd) and all(t == "call:error::HttpError::for_bad_request" for b, t in rd) and s400 == {400}
-        ctx.check(R, "from-%s-is-400" % src, ok, "From<%s> returns %s; for_bad_request's status constant: %s" % (src, sorted(set(t for _, t in rd)), sorted(s400 or [])), f)
+        rd = return_defs(f, adt="error::HttpError")
+        r0 = f.slice({"l": 0, "p": []})
+        made = sorted(set(c for c in r0.callee_names() if re.search(r"^error::HttpError::", c)) | set("aggregate " + a[1] for a in r0.atoms if a[0] == "agg" and a[1] == "error::HttpError"))
+        ok = bool(rd) and all(t in ("call:error::HttpError::for_bad_request", "value") for b, t in rd) and made == ["error::HttpError::for_bad_request"] and s400 == {400}
+        ctx.check(R, "from-%s-is-400" % src, ok, "From<%s> returns %s built by %s; for_bad_request's status constant: %s" % (src, sorted(set(t for _, t in rd)), made, sorted(s400 or [])), f)
 
 
 def _accept_roots(ctx, R):
@@ -329,6 +333,16 @@ SELFTEST = [
     {"name": "extra-debug-lines", "kind": "benign", "why": "behaviour-preserving: a debug line on the error arm and in both accept arms",
      "edits": [(_S, "            error.into_response(&request_id)\n", "            debug!(request_log, \"rendering error response\");\n            error.into_response(&request_id)\n"),
                (_S, "\n" + _I28 + "tokio::spawn(fut);\n", "\n" + _I28 + "debug!(log, \"connection task spawned\");\n" + _I28 + "tokio::spawn(fut);\n")]},
+    {"name": "panic-site-moves-into-closure", "kind": "benign", "why": "behaviour-preserving: the reviewed `HeaderValue::from_str(request_id).unwrap()` of http_request_handle moves into a local closure of the same function (the census counts per function item)",
+     "edits": [(_S, "        http::header::HeaderValue::from_str(&request_id).unwrap(),\n", "        {\n            let to_header = |id: &str| http::header::HeaderValue::from_str(id).unwrap();\n            to_header(&request_id)\n        },\n")]},
+    {"name": "option-filled-then-matched", "kind": "benign", "why": "behaviour-preserving: `get_or_insert_with` written as `if is_none() { = Some(..) }` followed by a match whose None arm is unreachable!() -- dead code, not a new panic site",
+     "edits": [("dropshot/src/error.rs", "        self.headers.get_or_insert_with(|| Box::new(http::HeaderMap::new()))", "        if self.headers.is_none() {\n            self.headers = Some(Box::new(http::HeaderMap::new()));\n        }\n        match self.headers {\n            Some(ref mut header_map) => header_map,\n            None => unreachable!(\"header map was just created\"),\n        }")]},
+    {"name": "option-matched-without-filling", "kind": "mutant", "why": "the None arm of the match is reachable (the map is only created for some errors): every error response without extra headers panics the connection task",
+     "edits": [("dropshot/src/error.rs", "        self.headers.get_or_insert_with(|| Box::new(http::HeaderMap::new()))", "        if self.headers.is_none() && self.error_code.is_some() {\n            self.headers = Some(Box::new(http::HeaderMap::new()));\n        }\n        match self.headers {\n            Some(ref mut header_map) => header_map,\n            None => unreachable!(\"header map was just created\"),\n        }")],
+     "expect": ["C18.R4"]},
+    {"name": "bad-request-conversion-through-local", "kind": "benign", "why": "behaviour-preserving: From<hyper::Error> binds the message and the 400 error to locals before returning",
+     "edits": [("dropshot/src/error.rs", "impl From<HyperError> for HttpError {\n    fn from(error: HyperError) -> Self {\n        // TODO-correctness dig deeper into the various cases to make sure this\n        // is a valid way to represent it.\n        HttpError::for_bad_request(\n            None,\n            format!(\"error processing request: {}\", error),\n        )",
+                "impl From<HyperError> for HttpError {\n    fn from(error: HyperError) -> Self {\n        let message = format!(\"error processing request: {}\", error);\n        let bad_request = HttpError::for_bad_request(None, message);\n        bad_request")]},
     {"name": "sleep-tuned", "kind": "benign", "why": "property-preserving: back-off after a resource-exhaustion accept error changed from 100 ms to 50 ms",
      "edits": [(_S, "                        tokio::time::sleep(std::time::Duration::from_millis(\n                            100,\n                        ))", "                        tokio::time::sleep(std::time::Duration::from_millis(\n                            50,\n                        ))")]},
 ]
